@@ -325,6 +325,22 @@ def suite_shape(tier, seed):
                 cfg = cfg_for(layout, kinds[n % 2], be, cap=cap)
                 cfg["maxalign"] = 16
                 drivers.append({"id": "rec:%s:%d:%d:%d" % (layout, r, s, a), "cfg": cfg, "ops": ops})
+        # "requests of size zero succeed on any writable arena, even a full one, without consuming space": every zero-sized
+        # type of the menu (alignment 1, 2, 8, 16) through every call, at every cursor residue, on arenas that are completely
+        # full and whose end is / is not a multiple of the alignment
+        doff = 32 if layout == "unify" else 1
+        for cap in [doff + 96, doff + 101]:
+            for r in range(0, 17):
+                for zi, a in enumerate([1, 2, 8, 16]):
+                    for owned in [False, True]:
+                        zops = [{"k": "at", "s": 0, "a": a, "o": owned}, {"k": "aa", "s": 0, "a": a, "n": 0, "o": owned},
+                                {"k": "ab", "n": 0, "o": owned}]
+                        be = backends[(r + zi) % len(backends)]
+                        cfg = cfg_for(layout, ["opt", "pes", "none"][(r + zi) % 3], be, cap=cap)
+                        cfg["maxalign"] = 16
+                        # at residue r with room left, then on the full arena
+                        ops = ([AB(r)] if r else []) + zops + [AB(cap - doff - r)] + zops + [AB(1)]
+                        drivers.append({"id": "zst:%s:%d:%d:%d:%d" % (layout, cap, r, a, owned), "cfg": cfg, "ops": ops})
     return drivers
 
 
